@@ -133,6 +133,12 @@ func (ev *evaluator) evalSetting(home Layer, e Exp, stack []string) Outcome {
 	return ev.eval(home, e, stack)
 }
 
+// stackKey: a reference is identified by its name and the tree it is written in (the same name
+// in the configuration and in an Env configuration are two different settings).
+func stackKey(home Layer, name string) string {
+	return fmt.Sprintf("%p/%s", home, name)
+}
+
 func inStack(stack []string, n string) bool {
 	for _, s := range stack {
 		if s == n {
@@ -152,10 +158,10 @@ func (ev *evaluator) deref(home Layer, name string, stack []string, typed bool) 
 	if name == "" {
 		return Outcome{Kind: Undefined}
 	}
-	if inStack(stack, name) {
+	if inStack(stack, stackKey(home, name)) {
 		return ev.resolverOr(name, Outcome{Kind: Cyclic, Str: name})
 	}
-	stack = append(append([]string{}, stack...), name)
+	stack = append(append([]string{}, stack...), stackKey(home, name))
 	layers := append([]Layer{home}, reverse(ev.env.Envs)...)
 	for _, l := range layers {
 		s, ok := l[name]
@@ -262,7 +268,7 @@ func (ev *evaluator) eval(home Layer, x Exp, stack []string) Outcome {
 			return n
 		}
 		var o Outcome
-		if t.Kind == ":+" && n.Kind == Value && n.Str != "" && inStack(stack, n.Str) {
+		if t.Kind == ":+" && n.Kind == Value && n.Str != "" && inStack(stack, stackKey(home, n.Str)) {
 			// the setting asked about is being evaluated right now: it is set
 			return ev.eval(home, t.RHS, stack)
 		}
@@ -289,7 +295,7 @@ func (ev *evaluator) eval(home Layer, x Exp, stack []string) Outcome {
 			return o
 		case ":+":
 			if !set {
-				if n.Kind == Value && n.Str != "" && !inStack(stack, n.Str) && ev.existsAsExpr(home, n.Str) {
+				if n.Kind == Value && n.Str != "" && !inStack(stack, stackKey(home, n.Str)) && ev.existsAsExpr(home, n.Str) {
 					// the setting exists but its own evaluation fails: whether that counts
 					// as "set" is not defined by the statement
 					return Outcome{Kind: Undefined}
